@@ -21,6 +21,8 @@ class Def:
         self.index = index
         self.stmt = stmt
         self.kind = kind  # assign | aug | for | with | param | except
+        self.star = False  # `*var` in a tuple target: var is the list of the elements from `index` on (when the star comes last)
+        self.after_star = False  # an element after a starred one: its position counts from the end
 
     def __repr__(self) -> str:
         return f"Def({self.var}@{self.nid}:{self.kind}:{unparse(self.value)[:40] if self.value is not None else ''}{'' if self.index is None else '[' + str(self.index) + ']'})"
@@ -31,9 +33,18 @@ def _targets(target: ast.expr, value: t.Optional[ast.expr], nid: int, stmt: ast.
     if isinstance(target, ast.Name):
         out.append(Def(target.id, nid, value, None, stmt, kind))
     elif isinstance(target, (ast.Tuple, ast.List)):
+        seen_star = False
         for i, el in enumerate(target.elts):
             if isinstance(el, ast.Name):
-                out.append(Def(el.id, nid, value, i, stmt, kind))
+                d = Def(el.id, nid, value, i, stmt, kind)
+                d.after_star = seen_star
+                out.append(d)
+            elif isinstance(el, ast.Starred) and isinstance(el.value, ast.Name):
+                d = Def(el.value.id, nid, value, i, stmt, kind)
+                d.star = True
+                d.after_star = i != len(target.elts) - 1
+                seen_star = True
+                out.append(d)
             else:
                 out += _targets(el, None, nid, stmt, kind)
     elif isinstance(target, ast.Attribute):
@@ -168,7 +179,7 @@ class ReachingDefs:
             return [(expr, None)]
         out: t.List[t.Tuple[ast.expr, t.Optional[int]]] = []
         for d in ds:
-            if d.kind == "param" or d.value is None:
+            if d.kind == "param" or d.value is None or d.star or d.after_star:
                 out.append((expr, None))
             elif d.index is None and isinstance(d.value, ast.Name) and d.kind == "assign":
                 out += self.origin(d.value, d.nid, depth + 1)
@@ -225,6 +236,13 @@ def prov_ast(rd: ReachingDefs, expr: ast.expr, at: t.Union[int, ast.AST], depth:
             d = ds[0]
             v: ast.expr = d.value.value if isinstance(d.value, ast.Await) else d.value  # type: ignore[assignment]
             inner = prov_ast(rd, v, d.nid, depth + 1)
+            if d.after_star and not d.star:
+                return node
+            if d.star:
+                # `a, b, *rest = E` with the star last: rest = E[2:] (as a list)
+                if d.after_star:
+                    return node
+                return ast.Subscript(value=inner, slice=ast.Slice(lower=ast.Constant(value=d.index), upper=None, step=None), ctx=ast.Load())
             if d.index is not None:
                 if isinstance(inner, (ast.Tuple, ast.List)) and d.index < len(inner.elts) and not any(isinstance(e, ast.Starred) for e in inner.elts):
                     return inner.elts[d.index]
